@@ -1069,10 +1069,10 @@ func VerifC32CompareStringsSym() {
 // the same family and oracle, by selector numbers, for the harness in sql/expression/function/json
 
 const (
-	ZzC32Shapes   = c32Shapes
-	ZzC32ValKinds = c32ValKinds
-	ZzC32Paths    = c32Paths
-	ZzC32NewVals  = c32NewVals
+	ZzC32Shapes                                                                            = c32Shapes
+	ZzC32ValKinds                                                                          = c32ValKinds
+	ZzC32Paths                                                                             = c32Paths
+	ZzC32NewVals                                                                           = c32NewVals
 	ZzC32ModeSet, ZzC32ModeInsert, ZzC32ModeReplace, ZzC32ModeRemove, ZzC32ModeArrayAppend = 0, 1, 2, 3, 4
 )
 
